@@ -313,6 +313,20 @@ def check_nested(rec, vals, vals2):
 
 # -- shards -------------------------------------------------------------------
 
+PURITY_TEMPLATES = ['=SUM(A1:B1)',
+                    '=SUM(A1,B1)',
+                    '=AVERAGE(A1:B1)',
+                    '=COUNT(A1:B1)',
+                    '=COUNT(A1,B1)',
+                    '=COUNTA(A1:B1)',
+                    '=MIN(A1:B1)',
+                    '=MAX(A1:B1)',
+                    '=MIN(A1,B1)',
+                    '=MAX(A1,B1)',
+                    '=SUMPRODUCT(A1:B1,A1:B1)',
+                    '=AVERAGE(A1,B1)']
+
+
 def shards(tier, seed):
     out = []
     n_h = 12 if tier == 'quick' else 16
@@ -323,6 +337,7 @@ def shards(tier, seed):
         out.append(dict(kind='nested', seed=seed * 1000 + 100 + k,
                         n=60 if tier == 'quick' else 1500))
     out.append(dict(kind='fixed'))
+    out.append(dict(kind='purity'))
     return out
 
 
@@ -336,6 +351,9 @@ FIXED = [
 
 
 def run_shard(shard, rec):
+    if shard['kind'] == 'purity':
+        from vlib import purity
+        return purity.run(rec, ID, PURITY_TEMPLATES)
     kind = shard['kind']
     env = FastEnv()
     ctx = (rec, env)
@@ -388,6 +406,9 @@ def run_shard(shard, rec):
 
 
 def replay(case, rec):
+    from vlib import purity
+    if purity.is_case(case):
+        return purity.replay(rec, ID, case)
     env = FastEnv()
     if isinstance(case, list):
         if len(case) == 2 and isinstance(case[0], list) and \
